@@ -4,7 +4,7 @@ import ast
 from . import rule, info
 from ..program import AnalysisError, src, norm
 from ..tables import BINARY_DUNDERS, UNARY_DUNDERS
-from ..util import is_name, calls_in, callee_qual, deref, ancestors, const_str_tests
+from ..util import is_name, calls_in, callee_qual, deref, ancestors, const_str_tests, polarity, exclusive
 from .c01 import model, conversion_rule, find_primitives
 
 info('C02',
@@ -339,3 +339,60 @@ def literal_passthrough(ctx):
             ctx.ob(ok, u, 'nested values are evaluated against the same target: %s' % norm(c), node=c)
     # arg_val brackets MIN_MODE with a fresh valuator (see also C08.4)
     ctx.floor(6)
+
+
+REFLECTED = {'__radd__', '__rsub__', '__rmul__', '__rtruediv__', '__rfloordiv__', '__rmod__', '__rpow__',
+             '__rand__', '__ror__', '__rxor__', '__rdiv__', '__rmatmul__', '__rlshift__', '__rrshift__'}
+
+
+@rule('C02.12')
+def call_defaults_and_reflection(ctx):
+    """(a) every `(` step is replayed through Call(func, args, kwargs): a default replaces only a
+    *missing* part (``is None``) -- a test by truth value swaps a falsy callable (an empty
+    container class instance with __call__) for T; (b) T records an operator with itself as the
+    left operand, so it defines no reflected operator: an alias ``__radd__ = __add__`` would
+    replay ``'x' + T`` as ``T + 'x'``"""
+    p = ctx.program
+    u = ctx.unit('core.Call.__init__')
+    cfg = ctx.cfg(u)
+    for prm in ('func', 'args', 'kwargs'):
+        if prm not in u.params:
+            ctx.ob(False, u, 'Call takes %s' % prm)
+            continue
+        # every rebinding of the parameter is guarded by an identity test on it
+        rebinds = [n for n in cfg.nodes if n.kind == 'stmt' and isinstance(n.ast, ast.Assign)
+                   and any(is_name(t, prm) for t in n.ast.targets)]
+        for rb in rebinds:
+            ok = False
+            for t in cfg.nodes:
+                if t.kind == 'test' and cfg.dominates(t, rb):
+                    pol = polarity(t.ast, '%s is None' % prm)
+                    if pol and rb in exclusive(cfg, t, pol):
+                        ok = True
+            ctx.ob(ok, u, 'the default for %s applies only when it is None: %s' % (prm, norm(rb.ast)),
+                   '' if ok else 'a falsy but meaningful %s is replaced' % prm, node=rb.ast)
+        # what is stored is the parameter itself (no ``or`` default in the store)
+        stores = []
+        for n in u.own_nodes():
+            if isinstance(n, ast.Assign):
+                for t, v in _pairs(n):
+                    if isinstance(t, ast.Attribute) and t.attr == prm and is_name(t.value, u.params[0]):
+                        stores.append((n, v))
+        ok = len(stores) == 1 and is_name(stores[0][1], prm)
+        ctx.ob(ok, u, 'Call keeps the %s it was given: %s' % (prm, [norm(v) for _, v in stores]),
+               '' if ok else 'the stored value is not the parameter itself')
+    c = ctx.cls('core.TType')
+    refl = sorted(n for n in REFLECTED if c.defines(n))
+    ctx.ob(not refl, c, 'T defines no reflected operator (the recorded left operand is always the T expression)',
+           '' if not refl else '%s: `x <op> T` would be recorded and replayed as `T <op> x`' % refl)
+    ctx.floor(7)
+
+
+def _pairs(assign):
+    out = []
+    for t in assign.targets:
+        if isinstance(t, ast.Tuple) and isinstance(assign.value, ast.Tuple) and len(t.elts) == len(assign.value.elts):
+            out += list(zip(t.elts, assign.value.elts))
+        else:
+            out.append((t, assign.value))
+    return out
